@@ -55,6 +55,18 @@ func runC20(w *W, i uint64) {
 	}
 	pool := append([][]byte(nil), c.Haystacks...)
 	pool = append(pool, walk(500), walk(3000), walk(64), gen.Sample(r, re0, c.Region))
+	if n0, err := nfa.NewDefaultCompiler().Compile(c.Pattern); err == nil && n0.States() > 300 {
+		// with a tiny DFA cache every byte costs a cache clear and a start-state rebuild over the whole NFA state
+		// set; ~2500 calls are made per case, so the haystacks are scaled to the automaton (a (?i)\W class has
+		// thousands of states)
+		limit := max(48, 150_000/n0.States())
+		for k := range pool {
+			if len(pool[k]) > limit {
+				pool[k] = pool[k][:limit]
+			}
+		}
+		w.Count("event:haystacks-scaled-to-nfa-size", 1)
+	}
 	fails := map[string]*c20agg{}
 	bad := func(sub, api, format string, a ...any) {
 		k := sub + "\t" + api
